@@ -459,6 +459,23 @@ def transform_body(unit, body, directives, log):
             ts = last + 1
             while ts < len(body) and body[ts].isspace():
                 ts += 1
+            # block statements (`for .. { }`, `while`, `loop`, `if .. { } else { }`) in front of the tail expression end without `;`
+            while True:
+                mk = re.match(r'(for|while|loop|if)\b', mbody[ts:])
+                if not mk:
+                    break
+                ob = mbody.find('{', ts)
+                if ob < 0:
+                    break
+                ts = match_close(mbody, ob) + 1
+                while True:
+                    while ts < len(body) and body[ts].isspace():
+                        ts += 1
+                    me = re.match(r'else\b', mbody[ts:])
+                    if not me:
+                        break
+                    ob = mbody.find('{', ts)
+                    ts = match_close(mbody, ob) + 1
             te = len(body.rstrip())
             if ts >= te or re.match(r'(if|for|while|loop|let|unsafe|return)\b|\{', body[ts:]):
                 raise ExtractError('%s: no plain tail expression to bind (found `%s`)' % (unit, body[ts:ts + 30]))
